@@ -141,7 +141,7 @@ fn devs(p: &[usize]) -> usize {
 fn explore_adf(run: &Run, text: &str, tts: &[TT], dmax: usize, st: &mut St) {
     let n = tts.len();
     let parser = AdfParser::default();
-    if guard(|| parser.parse()(text).is_ok()) != Ok(true) {
+    if guard(|| crate::fam::parse_into(&parser, text)) != Ok(true) {
         run.violation("parse", format!("well-formed input rejected: {}", text), json!({"type": "adf", "text": text, "tts": tts}));
         return;
     }
@@ -216,7 +216,7 @@ pub fn builtin_case_o(text: &str, orc: &crate::mid::Oracle, h: usize, seed: Opti
     let n = orc.n;
     let mut out = vec![];
     let parser = AdfParser::default();
-    if guard(|| parser.parse()(text).is_ok()) != Ok(true) {
+    if guard(|| crate::fam::parse_into(&parser, text)) != Ok(true) {
         out.push(("parse".into(), "well-formed input rejected".into()));
         return out;
     }
@@ -487,6 +487,7 @@ pub fn run_c05(run: &Run) {
 
     // ---- (1) choice sequences
     let mut plan: Vec<(Source, usize)> = vec![
+        (Source::FamCompact(fam_a(0)), usize::MAX),
         (Source::FamCompact(fam_a(1)), usize::MAX),
         (Source::FamCompact(fam_a(2)), usize::MAX),
         (Source::FamCompact(fam_f(3, 1)), usize::MAX),
@@ -640,6 +641,7 @@ pub fn run_c05(run: &Run) {
     let seeds_big = covering_seeds(if quick { 1 } else { 2 });
     run.extra("rand_seeds", json!({"small_families": {"prefix_length": l_small, "seeds": seeds_small.len()}, "F(3,2)": {"prefix_length": if quick {1} else {2}, "seeds": seeds_big.len()}}));
     let rand_plan: Vec<(Source, &Vec<u64>)> = vec![
+        (Source::FamCompact(fam_a(0)), &seeds_small),
         (Source::FamCompact(fam_a(1)), &seeds_small),
         (Source::FamCompact(fam_a(2)), &seeds_small),
         (Source::FamCompact(fam_f(3, 1)), &seeds_small),
